@@ -70,6 +70,9 @@ def run_case(ctx, Model, case):
     if 'history' not in case:
         from .common import h64
         case['history'] = [None, None, None, None, 'copy', 'deepcopy', 'reindex', 'add-variable'][h64(['hist', case]) % 8]
+    if 'caller_errstate' not in case:
+        from .common import h64
+        case['caller_errstate'] = [None, None, None, None, 'ignore', 'raise', 'warn'][h64(['es', case]) % 7]
     if 'hook_binding' not in case:
         from .common import h64
         case['hook_binding'] = 'instance' if case['model_class'] == 'plain' and h64(['hb', case]) % 4 == 0 else 'class'
@@ -103,9 +106,10 @@ def run_case(ctx, Model, case):
         else:
             start = dict(case['offset_source'])
     check = case['check'] if case.get('check') is not None else ['A', 'B']
-    want = scripted.ref_solve_t([tuple(p) for p in case['script']], start, check, min_iter=case['min_iter'], max_iter=case['max_iter'],
+    eff_script, eff_before, eff_after = scripted.effective_faults(case)
+    want = scripted.ref_solve_t(eff_script, start, check, min_iter=case['min_iter'], max_iter=case['max_iter'],
                                 tol=case.get('solver_tol', case['tol']), scale=case['tol'], failures=case['failures'], errors=case['errors'], cfe=case['cfe'],
-                                before_fault=case.get('before_fault'), after_fault=case.get('after_fault'))
+                                before_fault=eff_before, after_fault=eff_after)
     if reject:
         want = dict(kind='exc', value=reject, nothing_changed=True, evals=0, befores=0, afters=0, stored=dict(case['start']))
     if want.get('nothing_changed'):
